@@ -35,7 +35,12 @@ for _p in ("C04", "C15", "C16", "C17", "C18"):
 for _p in ("C03", "C17"):
     PROPS[_p]["units"] = PROPS[_p]["units"] + ["find"]
 PROPS["C11"] = {"units": ["find"], "level": "proof", "assumptions": []}
-NOT_APPLICABLE.pop("C11", None)
+PROPS["C13"] = {"units": ["find", "generate", "entry"], "level": "proof", "assumptions": []}
+PROPS["C14"] = {"units": ["find"], "level": "proof", "assumptions": []}
+for _p in ("C05", "C06", "C12"):
+    PROPS[_p]["units"] = PROPS[_p]["units"] + ["find"]
+for _k in ("C11", "C13", "C14"):
+    NOT_APPLICABLE.pop(_k, None)
 from . import c12 as _c12
 PROPS["C12"] = {"units": ["entry"], "level": "exploration", "assumptions": [
     "regex crate and str::parse::<u32> are exercised natively on the enumerated set only (bounded, not proved)"],
